@@ -46,8 +46,15 @@ def compare(chk: Check, case, where: str):
                 sc = 2.0 ** k
                 Ain = np.array(A, order=order, copy=True)
                 yin = y * sc
-                clp, r = fn(Ain, yin.copy())
+                ycall = yin.copy()
+                clp, r = fn(Ain, ycall)
                 chk.evaluations += 1
+                # the caller's matrix and data are inputs: an index-independent matrix is reused for every global index
+                if not np.array_equal(Ain, A) or not np.array_equal(ycall, yin):
+                    chk.violation(f"LeastSquares[{fname}]: input modified order={order} n={n}",
+                                  f"{where} {fname} order={order}: the call modified its {'matrix' if not np.array_equal(Ain, A) else 'data'} argument ({desc}); a second index using the same matrix is solved with garbage",
+                                  {"engine": "c01", "case": case})
+                    continue
                 clp = np.asarray(clp)[:n] / sc
                 r = np.asarray(r) / sc
                 scale = max(1.0, max(abs(float(v)) for v in exp_clp), max(abs(v) for v in case["y"]))
